@@ -158,3 +158,167 @@ def usel_out(rows: Seq[RecV], n: Int) -> Seq[RecV]:
     if not truthy(H_WHERE(rows[n - 1], n)):
         return usel_out(rows, n - 1)
     return usel_out(rows, n - 1) + unnest_rows([H_E1(rows[n - 1], n)], [H_E2(rows[n - 1], n)], H_UNNEST_LIST(rows[n - 1], n), len(H_UNNEST_LIST(rows[n - 1], n)))
+
+
+# ---------------------------------------------------------------- JOIN variants (C04): oracles see the paired record
+@spec(opaque=True)
+def H_JWHERE(r: RecV, nr: Int, b: RecV, bnr: Int) -> Cell:
+    raise NotImplementedError
+
+
+@spec(opaque=True)
+def H_JWHERE_fail(r: RecV, nr: Int, b: RecV, bnr: Int) -> Int:
+    raise NotImplementedError
+
+
+@spec(opaque=True)
+def H_JELTS(r: RecV, nr: Int, b: RecV, bnr: Int) -> Seq[Cell]:
+    raise NotImplementedError
+
+
+@spec(opaque=True)
+def H_JELTS_fail(r: RecV, nr: Int, b: RecV, bnr: Int) -> Int:
+    raise NotImplementedError
+
+
+@spec(opaque=True)
+def H_JSORTKEY(r: RecV, nr: Int, b: RecV, bnr: Int) -> Key:
+    raise NotImplementedError
+
+
+@spec(opaque=True)
+def H_JSORTKEY_fail(r: RecV, nr: Int, b: RecV, bnr: Int) -> Int:
+    raise NotImplementedError
+
+
+@spec
+def bnr_of(o: Opt[Int]) -> Int:
+    if is_none(o):
+        return -1
+    return opt_val(o)
+
+
+@spec
+def jmatch_fail(r: RecV, nr: Int, b: RecV, bnr: Int) -> Bool:
+    if H_JWHERE_fail(r, nr, b, bnr) != 0:
+        return True
+    if not truthy(H_JWHERE(r, nr, b, bnr)):
+        return False
+    return H_JELTS_fail(r, nr, b, bnr) != 0 or H_JSORTKEY_fail(r, nr, b, bnr) != 0
+
+
+@spec
+def jrows(r: RecV, nr: Int, ms: Seq[Tuple[Opt[Int], Int, RecV]], k: Int) -> Seq[RecV]:
+    # output records for the first k pairings of record r: WHERE and SELECT see the paired record
+    if k <= 0:
+        return []
+    if not truthy(H_JWHERE(r, nr, ms[k - 1][2], bnr_of(ms[k - 1][0]))):
+        return jrows(r, nr, ms, k - 1)
+    return jrows(r, nr, ms, k - 1) + [H_JELTS(r, nr, ms[k - 1][2], bnr_of(ms[k - 1][0]))]
+
+
+@spec
+def jfirst_fail(r: RecV, nr: Int, ms: Seq[Tuple[Opt[Int], Int, RecV]], k: Int) -> Int:
+    # first pairing at or after k on which an expression raises, or -1
+    if k < 0 or k >= len(ms):
+        return -1
+    if jmatch_fail(r, nr, ms[k][2], bnr_of(ms[k][0])):
+        return k
+    return jfirst_fail(r, nr, ms, k + 1)
+
+
+@spec
+def jpairs_of(r: RecV, kind: Int, jm: Map[JKey, Seq[Tuple[Opt[Int], Int, RecV]]], nullw: Int) -> Seq[Tuple[Opt[Int], Int, RecV]]:
+    # the B records paired with A record r under the key expression of this variant: a1 == b<key>
+    return join_pairs_for(kind, jm, nullw, k1(r[0]))
+
+
+@spec
+def jrec_fail(r: RecV, nr: Int, kind: Int, jm: Map[JKey, Seq[Tuple[Opt[Int], Int, RecV]]], nullw: Int) -> Bool:
+    if len(r) < 1:
+        return True
+    if kind == 2 and len(jm[k1(r[0])]) != 1:
+        return True
+    return jfirst_fail(r, nr, jpairs_of(r, kind, jm, nullw), 0) >= 0
+
+
+@spec
+def jsel_out(rows: Seq[RecV], n: Int, kind: Int, jm: Map[JKey, Seq[Tuple[Opt[Int], Int, RecV]]], nullw: Int) -> Seq[RecV]:
+    # C04: each A record, in order, paired with every key-equal B record in B order (as if A had been expanded)
+    if n <= 0:
+        return []
+    return jsel_out(rows, n - 1, kind, jm, nullw) + jrows(rows[n - 1], n, jpairs_of(rows[n - 1], kind, jm, nullw), len(jpairs_of(rows[n - 1], kind, jm, nullw)))
+
+
+# ---------------------------------------------------------------- UPDATE (C05)
+@spec(opaque=True)
+def H_RHS1(r: RecV, nr: Int, nu: Int) -> Cell:
+    raise NotImplementedError
+
+
+@spec(opaque=True)
+def H_RHS1_fail(r: RecV, nr: Int, nu: Int) -> Int:
+    raise NotImplementedError
+
+
+@spec(opaque=True)
+def H_RHS2(r: RecV, nr: Int, nu: Int) -> Cell:
+    raise NotImplementedError
+
+
+@spec(opaque=True)
+def H_RHS2_fail(r: RecV, nr: Int, nu: Int) -> Int:
+    raise NotImplementedError
+
+
+@spec(opaque=True)
+def H_RHS3(r: RecV, nr: Int, nu: Int) -> Cell:
+    raise NotImplementedError
+
+
+@spec(opaque=True)
+def H_RHS3_fail(r: RecV, nr: Int, nu: Int) -> Int:
+    raise NotImplementedError
+
+
+@spec
+def set_at(r: Seq[Cell], i: Int, v: Cell) -> Seq[Cell]:
+    return r[:i] + [v] + r[i + 1:]
+
+
+@spec
+def nu_upto(rows: Seq[RecV], n: Int, has_where: Bool) -> Int:
+    # NU: number of records updated among the first n
+    if n <= 0:
+        return 0
+    if has_where and not truthy(H_WHERE(rows[n - 1], n)):
+        return nu_upto(rows, n - 1, has_where)
+    return nu_upto(rows, n - 1, has_where) + 1
+
+
+@spec
+def upd_row(r: RecV, nr: Int, nu: Int, has_where: Bool) -> RecV:
+    # UPDATE a1 = e1, a3 = e2: records failing WHERE unchanged; otherwise exactly the assigned fields change,
+    # every right-hand side evaluated against the original record (NU already counts this record)
+    if has_where and not truthy(H_WHERE(r, nr)):
+        return r
+    return set_at(set_at(r, 0, H_RHS1(r, nr, nu + 1)), 2, H_RHS2(r, nr, nu + 1))
+
+
+@spec
+def upd_fail(r: RecV, nr: Int, nu: Int, has_where: Bool) -> Bool:
+    if has_where and H_WHERE_fail(r, nr) != 0:
+        return True
+    if has_where and not truthy(H_WHERE(r, nr)):
+        return False
+    if H_RHS1_fail(r, nr, nu + 1) != 0 or len(r) < 1:
+        return True
+    return H_RHS2_fail(r, nr, nu + 1) != 0 or len(r) < 3
+
+
+@spec
+def upd_out(rows: Seq[RecV], n: Int, has_where: Bool) -> Seq[RecV]:
+    # exactly one output record per input record, in order
+    if n <= 0:
+        return []
+    return upd_out(rows, n - 1, has_where) + [upd_row(rows[n - 1], n, nu_upto(rows, n - 1, has_where), has_where)]
